@@ -347,6 +347,9 @@ class PseudoNetCDFMaskedVariable(PseudoNetCDFVariable, np.ma.MaskedArray):
         np.ma.MaskedArray.__array_finalize__(self, obj)
 
     def _update_from(self, obj):
+        # numpy first: it restores the attributes captured when the masked
+        # array was created (_optinfo), which may be older than obj's
+        np.ma.MaskedArray._update_from(self, obj)
         dt = self.dtype.char
         self.typecode = getattr(
             obj, 'typecode', lambda: ('c' if dt == 'S' else dt))
@@ -360,7 +363,6 @@ class PseudoNetCDFMaskedVariable(PseudoNetCDFVariable, np.ma.MaskedArray):
                 if k in ('fill_value',):
                     continue
                 setattr(self, k, getattr(obj, k))
-        np.ma.MaskedArray._update_from(self, obj)
 
     def __getitem__(self, item):
         out = np.ma.MaskedArray.__getitem__(self, item)
